@@ -246,6 +246,35 @@ func (m *mkMesh) stop() (hung []string) {
 	return hung
 }
 
+// mkKillLink: agent a loses its connection to peer the way a keepalive timeout does — close,
+// then report the disconnect (the two steps of peer.Manager.keepaliveLoop, entered through the
+// verif-tagged Manager.VerifKeepaliveTimeout); the far side sees the QUIC connection close.
+// A bare Connection.Close() is NOT a production event: the closing side's read loop may leave on
+// conn.Done() without ever reporting the disconnect, so nothing is cleaned up there, the dead
+// connection stays registered and every reconnect is turned away as a duplicate.
+func mkKillLink(a *Agent, peer identity.AgentID) bool {
+	c := a.peerMgr.GetPeer(peer)
+	if c == nil {
+		return false
+	}
+	a.peerMgr.VerifKeepaliveTimeout(c)
+	return true
+}
+
+// mkKillLinkFromTap is mkKillLink for use inside a frame-tap callback (which runs in the middle
+// of a frame write on that very connection): the connection is closed synchronously, so the
+// write in progress fails; the disconnect is reported from another goroutine, as the keepalive
+// goroutine would.
+func mkKillLinkFromTap(a *Agent, peer identity.AgentID) bool {
+	c := a.peerMgr.GetPeer(peer)
+	if c == nil {
+		return false
+	}
+	c.Close()
+	go a.peerMgr.VerifKeepaliveTimeout(c)
+	return true
+}
+
 func (m *mkMesh) name(id identity.AgentID) string {
 	if n, ok := m.byID[id]; ok {
 		return n.name
